@@ -47,6 +47,7 @@ type FuncSpec struct {
 	FnInvs     []Clause // function-level invariants: required at entry, ensured at exit, no old(); used by iterator callers
 	Ensures    []Clause
 	OnPanic    []Clause // ensures on panic exit
+	Guard      *Clause  // iface contracts: the ensures clauses hold for calls whose pre-state satisfies the guard
 	Modifies   []Expr
 	ModAll     bool // modifies everything (arbitrary user code)
 	ModSrc     []string
@@ -110,6 +111,7 @@ type FoldDecl struct {
 // obligation is proved by SMT; the extension to runs of any length is the engine's induction schema (trusted).
 type RunLemma struct {
 	Fold, Name, Q, P string
+	B string // runmove: target set
 }
 
 type ChanRole struct {
@@ -285,6 +287,15 @@ func (ss *SpecSet) LoadSpecFile(path, pkgPath string, assumed bool) error {
 				fail(i, "duplicate contract for %s", key)
 			}
 			ss.Funcs[key] = cur
+		case "guard":
+			if cur == nil {
+				fail(i, "guard outside func")
+				continue
+			}
+			if c, ok := mkClause(i, rest); ok {
+				cc := c
+				cur.Guard = &cc
+			}
 		case "requires", "ensures", "invariant", "decreases", "onpanic", "step", "exit":
 			if cur == nil {
 				fail(i, "%s outside func", kw)
@@ -553,6 +564,15 @@ func (ss *SpecSet) LoadSpecFile(path, pkgPath string, assumed bool) error {
 				continue
 			}
 			ss.RunLemmas = append(ss.RunLemmas, RunLemma{Fold: parts[0], Name: parts[1], Q: parts[2], P: parts[3]})
+		case "runmove":
+			// runmove fold name A B P: from a state in A, a non-empty run of P-bytes ends in a state in B
+			// (one-step obligations: A && P ==> B after the step; B && P ==> B after the step)
+			parts := strings.Fields(rest)
+			if len(parts) != 5 {
+				fail(i, "runmove fold name A B P")
+				continue
+			}
+			ss.RunLemmas = append(ss.RunLemmas, RunLemma{Fold: parts[0], Name: parts[1], Q: parts[2], B: parts[3], P: parts[4]})
 		case "lemma":
 			label, src := splitLabel(rest)
 			e, err := ParseExpr(src)
@@ -638,6 +658,8 @@ func (ss *SpecSet) LoadSpecFile(path, pkgPath string, assumed bool) error {
 				pi.Owner, pi.Field = o, f
 			}
 			ss.Pools = append(ss.Pools, pi)
+			// per-pool ownership marker: owned_<pool> (owned(x) is the disjunction over all pools)
+			ss.GFields = append(ss.GFields, GhostField{Type: "any", Field: "owned_" + pi.Field, FType: "bool"})
 		case "const-global":
 			for _, n := range strings.Fields(rest) {
 				ss.Consts[qual(n)] = "const"
